@@ -27,7 +27,7 @@ Open Scope list_scope.
 Inductive atom :=
 | AStr (s : list Z)         (* character data, bytes of the UTF-8 text after unescaping *)
 | AInt (z : Z)
-| AFloat (q : Z)            (* scaled by 128 *)
+| AFloat (q : Z)            (* exact integer key, 0 for zero *)
 | ABool (b : bool)
 | ATime (t : Z)             (* RFC 3339 instant, nanoseconds since the Unix epoch *)
 | ADate (s : Z).            (* "2006-01-02 15:04:05 MST" instant, whole seconds since the epoch *)
